@@ -335,6 +335,7 @@ draw_st = st.fixed_dictionaries({
     'exclude': _patterns(), 'exclude_old': _patterns(),
     'volid': st.sampled_from(['', '', '', 'CDROM', 'MY_VOLUME_1', 'CDROM', 'VOLUME_ID_16_CHR', 'V' * 32]),
     'iso_extract': st.sampled_from([False, False, False, True]),
+    'spell': st.sampled_from([0, 0, 1, 2, 3]),
     'chain': st.sampled_from([0, 0, 0, 0, 1, 2, 3, 5, 7, 8, 8, 9, 9]),
     'chain_names': st.lists(st.sampled_from(['d', 'lib', 'AB', 'ab', 'sub', 'n', 'deep', 'x1', 'Data', 'data', 'ü', 'long_directory_name']),
                             min_size=9, max_size=9),
@@ -508,6 +509,8 @@ def build_case(d):
         opts['hide_joliet'] = []
     if not opts['udf']:
         opts['hide_udf'] = []
+    if d.get('spell'):
+        opts['spell'] = d['spell']
     return {'tree': tree, 'options': opts}, avoided
 
 
@@ -637,6 +640,10 @@ def analyse(case):
             classes.append('opt:' + k)
     if excl:
         classes.append('opt:exclude')
+    if (o.get('spell') or 0) & 1 and o['udf']:
+        classes.append('opt:-UDF')
+    if (o.get('spell') or 0) & 2 and any(o[k] for k in ('hide', 'hide_joliet', 'hide_udf', 'hidden', 'exclude')):
+        classes.append('opt:pattern-list-files')
     if o['volid']:
         classes.append('opt:volid')
     sib = collections.defaultdict(list)
@@ -967,8 +974,9 @@ def geniso_argv(o, out, src):
         a.append('-' + o['rr'])
     if o['joliet']:
         a.append('-J')
+    spell = o.get('spell') or 0
     if o['udf']:
-        a.append('-udf')
+        a.append('-UDF' if spell & 1 else '-udf')      # the two documented spellings
     if o['dups']:
         a.append('-scan-for-duplicates')
     if o['volid']:
@@ -982,7 +990,16 @@ def geniso_argv(o, out, src):
             a.append('-boot-info-table')
     for flag, key in (('-hide', 'hide'), ('-hide-joliet', 'hide_joliet'), ('-hide-udf', 'hide_udf'), ('-hidden', 'hidden'),
                       ('-m', 'exclude'), ('-x', 'exclude_old')):
-        for p in o[key]:
+        pats = o[key]
+        listflag = {'-hide': '-hide-list', '-hide-joliet': '-hide-joliet-list', '-hide-udf': '-hide-udf-list', '-hidden': '-hidden-list', '-m': '-exclude-list'}.get(flag)
+        if spell & 2 and listflag and pats and all(p and p == p.strip() and '\n' not in p and '\r' not in p for p in pats):
+            # the same patterns, given in a file (one per line) instead of on the command line
+            lst = '%s.%s.lst' % (out, key)
+            with open(lst, 'w', encoding='utf-8') as f:
+                f.write(''.join(p + '\n' for p in pats))
+            a += [listflag, lst]
+            continue
+        for p in pats:
             a += [flag, p]
     a.append(src)
     return a
